@@ -121,6 +121,27 @@ fn p_bigclass() -> Profile {
     }
 }
 
+/// Classes whose pieces are cut at the edges of the surrogate gap and of the scalar range.
+fn p_gap() -> Profile {
+    let mut re = ReParams::basic(&['a', '\'', '\0', '\u{d7ff}', '\u{e000}', '\u{10ffff}', 'z']);
+    re.w_diff = 6;
+    re.w_any = 5;
+    re.w_set = 8;
+    re.w_str = 1;
+    re.size = 8;
+    Profile {
+        name: "gap-classes",
+        re,
+        sets: (1, 2),
+        rules: (2, 4),
+        ctx_pct: 20,
+        eoi_pct: 0,
+        kinds: KindMix::tokens_only(),
+        unnamed_pct: 40,
+        allow_empty_sets: false,
+    }
+}
+
 fn p_manysets() -> Profile {
     let mut p = p_sets();
     p.name = "many-sets";
@@ -139,7 +160,7 @@ fn scaling_specs(r: &mut TestRunner, n: usize) -> Vec<Spec> {
     let count = any::<u8>();
     for i in 0..n {
         let mut rules = vec![];
-        match i % 3 {
+        match i % 4 {
             0 => {
                 // 10-40 keyword rules plus an identifier rule
                 let k = 10 + (sample(&count, r) as usize % 31);
@@ -161,6 +182,18 @@ fn scaling_specs(r: &mut TestRunner, n: usize) -> Vec<Spec> {
                 for _ in 0..k {
                     rules.push((Re::Str(keyword(r, (20, 60))), None));
                 }
+            }
+            3 => {
+                // a 10-30-way alternation of characters as an operand of `#`, directly and through
+                // a variable
+                let k = 10 + (sample(&count, r) as usize % 21);
+                let letters: Vec<char> = ('a'..='z').chain('0'..='9').collect();
+                let mut a = Re::Char(letters[0]);
+                for j in 1..k {
+                    a = alt(a, Re::Char(letters[j % letters.len()]));
+                }
+                rules.push((plus(diff(Re::Any, a.clone())), None));
+                rules.push((cat(Re::Char('a'), diff(Re::Builtin("ascii".into()), a)), None));
             }
             _ => {
                 // 10-30-way alternations
@@ -220,6 +253,7 @@ pub fn run_c12(tier: Tier) -> i32 {
         p_actions(),
         p_bigclass(),
         p_manysets(),
+        p_gap(),
     ];
     let tapes = gen::tape_strategy(40);
     let mut capped = 0usize;
@@ -232,6 +266,30 @@ pub fn run_c12(tier: Tier) -> i32 {
             }
             if i % 5 == 2 {
                 gen::duplicate_rules(&mut s, &sample(&tapes, &mut r));
+            }
+            if p.name == "gap-classes" && i % 3 == 0 {
+                // "any scalar value" spelled as two ranges around the surrogate gap, next to a
+                // class derived from `_`, both followed by more input
+                let all = Re::Set(vec![SetItem::R('\0', '\u{d7ff}'), SetItem::R('\u{e000}', '\u{10ffff}')]);
+                let extra = vec![
+                    Rule { re: cat(diff(Re::Any, Re::Char('q')), Re::Char('a')), ctx: None, kind: Kind::Simple },
+                    Rule { re: cat(if i % 2 == 0 { all } else { plus(all) }, Re::Char('b')), ctx: None, kind: Kind::Simple },
+                ];
+                let mut placed = false;
+                for t in s.items.iter_mut() {
+                    if let Top::RuleSet { items, .. } = t {
+                        for e in &extra {
+                            items.push(Inner::Rule(e.clone()));
+                        }
+                        placed = true;
+                        break;
+                    }
+                }
+                if !placed {
+                    for e in extra {
+                        s.items.push(Top::Rule(e));
+                    }
+                }
             }
             capped += cap_spec(&mut s);
             specs.push((p.name, s));
@@ -377,10 +435,50 @@ pub fn run_c12(tier: Tier) -> i32 {
             multi_ok.push(gi);
         }
     }
+    // header variants: user state / token / error types with lifetimes, visibility, attributes
+    let headers: Vec<(&str, &str)> = vec![
+        ("Lexer -> u32;", ""),
+        ("Lexer(u32) -> u32;", ""),
+        ("pub(crate) Lexer(usize) -> (u32, u32);", ""),
+        ("/// doc comment\n#[derive(Debug, Clone)]\npub Lexer(Vec<u32>) -> u32;", ""),
+        ("Lexer(&'input str) -> &'input str;", "&'input str"),
+        ("Lexer(Option<&'a str>) -> u32;", ""),
+        ("Lexer(Pair<'a, 'b>) -> u32;", ""),
+        ("Lexer(Pair<'a, 'a>) -> u32;", ""),
+        ("Lexer(Pair<'a, 'input>) -> u32;", ""),
+        ("Lexer(Pair<'static, 'a>) -> u32;", ""),
+        ("Lexer(Pair<'input, 'input>) -> Tok<'input>;", "tok"),
+        ("Lexer -> Tok<'input>;", "tok"),
+        ("Lexer(u8) -> u32; type Error = Pair<'input, 'input>;", ""),
+        ("pub Lexer(std::collections::HashMap<u32, Vec<&'a str>>) -> u32;", ""),
+    ];
+    let bodies = [
+        "rule Init { 'a' = V, 'b'+ => |lexer| { let _ = lexer.state(); lexer.return_(V) }, ' ', } rule Other { $$alphabetic+ = V, }",
+        "let x = ['a'-'z']; $x+ 'q' = V, $x > '!' = V, _ => |lexer| lexer.continue_(),",
+    ];
+    for (hi, (h, tokkind)) in headers.iter().enumerate() {
+        for (bi, b) in bodies.iter().enumerate() {
+            let v = match *tokkind {
+                "tok" => "Tok(\"x\")",
+                "&'input str" => "\"x\"",
+                _ if h.contains("(u32, u32)") => "(1, 2)",
+                _ => "7",
+            };
+            let text = format!(
+                "#[allow(dead_code)]\npub struct Pair<'x, 'y>(pub &'x str, pub &'y str);\n#[allow(dead_code)]\npub struct Tok<'t>(pub &'t str);\nlexgen::lexer! {{\n{}\n{}\n}}\n{}",
+                h,
+                b.replace("V", v),
+                dummy_run()
+            );
+            modules.insert(2_000_000 + hi * 10 + bi, text);
+        }
+    }
     let n_modules = modules.len();
-    let build = genc::build_modules(&format!("c12_{}_{}", tier.name(), seed()), modules, 16);
+    let build = genc::build_modules(&format!("c12_{}_{}", tier.name(), seed()), modules.clone(), 16);
     for (i, e) in &build.failed {
-        let def = if *i >= 1_000_000 {
+        let def = if *i >= 2_000_000 {
+            modules.get(i).cloned().unwrap_or_default()
+        } else if *i >= 1_000_000 {
             multi_lexer_module(&multi[*i - 1_000_000])
         } else {
             specs[*i].1.print_macro("Lexer")
@@ -523,6 +621,8 @@ impl Prop for C16e {
         let mut a = p_rewind();
         a.name = "paren-styles";
         a.re.w_diff = 2;
+        a.re.w_builtin = 2;
+        a.re.builtins = vec!["ascii_lowercase", "ascii_digit", "whitespace", "ascii_hexdigit"];
         a.re.size = 12;
         let mut b = p_sets();
         b.name = "paren-styles-sets";
@@ -530,6 +630,8 @@ impl Prop for C16e {
         b.allow_empty_sets = false;
         b.rules = (1, 3);
         b.ctx_pct = 30;
+        b.re.w_builtin = 2;
+        b.re.builtins = vec!["ascii_lowercase", "ascii_digit", "ascii_punctuation"];
         vec![(a, tier.pick(150, 1500)), (b, tier.pick(150, 1500))]
     }
     fn adjust_spec(&self, mut spec: Spec, r: &mut TestRunner) -> Spec {
@@ -540,6 +642,10 @@ impl Prop for C16e {
         };
         let tape = sample(&gen::tape_strategy(60), r);
         gen::factor_lets(&mut spec, &tape, 30);
+        // the same variable several times in one rule set, with different text around it
+        let tape2 = sample(&gen::tape_strategy(40), r);
+        gen::reuse_vars(&mut spec, &tape2, 15);
+        gen::repair_nullable(&mut spec, 'a');
         spec
     }
     fn cases(&self, ctx: &SpecCtx, _c: &mut Compiled, r: &mut TestRunner, tier: Tier) -> Vec<Case> {
@@ -843,6 +949,27 @@ fn mutants(r: &mut TestRunner, i: usize) -> Vec<Mutant> {
             let mut s = base.clone();
             s.items.insert(0, Top::Let("unused9".into(), cat(Re::Char('a'), Re::Var("undefined_var".into()))));
             push(&mut out, "unbound-var", pr(&s), true, false);
+            // … and a variable that is bound, but only inside ANOTHER rule set
+            let mut s = base.clone();
+            let set_idx: Vec<usize> = s.items.iter().enumerate().filter(|(_, t)| matches!(t, Top::RuleSet { items, .. } if items.iter().any(|i| matches!(i, Inner::Rule(_))))).map(|(k, _)| k).collect();
+            let all_sets: Vec<usize> = s.items.iter().enumerate().filter(|(_, t)| matches!(t, Top::RuleSet { .. })).map(|(k, _)| k).collect();
+            if all_sets.len() >= 2 && !set_idx.is_empty() {
+                let user = set_idx[pos % set_idx.len()];
+                let others: Vec<usize> = all_sets.iter().copied().filter(|k| *k != user).collect();
+                let def = others[(pos / 7) % others.len()];
+                if let Top::RuleSet { items, .. } = &mut s.items[def] {
+                    items.insert(0, Inner::Let("elsewhere".into(), Re::Char('a')));
+                }
+                if let Top::RuleSet { items, .. } = &mut s.items[user] {
+                    for i in items.iter_mut() {
+                        if let Inner::Rule(rule) = i {
+                            rule.re = cat(Re::Var("elsewhere".into()), rule.re.clone());
+                            break;
+                        }
+                    }
+                }
+                push(&mut out, "unbound-var-other-rule-set", pr(&s), false, true);
+            }
         }
         1 => {
             let mut s = base.clone();
@@ -1115,7 +1242,7 @@ pub fn run_c17(tier: Tier) -> i32 {
                     violations.push((i, format!("ill-formed definition ({}) was turned into a lexer", m.kind)));
                 }
             }
-            Expand::Timeout(_) | Expand::Died | Expand::Nondeterministic(_) => {
+            Expand::Timeout(_) | Expand::Died | Expand::Nondeterministic(_) | Expand::Unparsable(_) => {
                 violations.push((i, format!("ill-formed definition ({}) is neither rejected nor expanded: {}", m.kind, e.short())));
             }
             _ => {}
